@@ -143,7 +143,7 @@ fn check_curve(e: &Elem, verts: &[P], tol: f64, scale: f64) -> Result<f64, Strin
     // the correspondence between chords and arcs found above is only as sharp as the vertex tolerance (a vertex
     // may be attributed to a sample a few steps early), so a distance measured along it that is not clearly
     // inside the bound is measured again without the restriction
-    let remeasure = 4.0 * tol + 1e-5 * scale;
+    let remeasure = 4.0 * tol + 2e-6 * scale;
     let full_to_poly = |q: P| (0..poly.len() - 1).fold(f64::INFINITY, |d, s| d.min(dist_point_seg(q, poly[s], poly[s + 1])));
     // the chords around chord i (the samples at the ends of an arc belong to a neighbouring chord)
     let near_poly = |q: P, i: usize| (i.saturating_sub(3)..(i + 2).min(poly.len() - 1)).fold(f64::INFINITY, |d, s| d.min(dist_point_seg(q, poly[s], poly[s + 1])));
@@ -260,7 +260,8 @@ pub fn check(c: &Case) -> CheckResult {
     let tol = c.tol as f64;
     let devs = match_ops(&input, &flat.ops, tol, scale)?;
     // slack: f32 noise plus the reference sampling error (spacing <= tol/2, i.e. <= tol/4 of distance)
-    let slack = 1e-4 * scale + 1e-4 + tol / 4.0;
+    // (f32 evaluation noise of the vertices: observed up to 2e-6 x the largest coordinate)
+    let slack = 5e-6 * scale + 1e-4 + tol / 4.0;
     for d in &devs {
         if *d > 8.0 * tol + slack {
             return Err(format!("polyline deviates from its curve by {} > 8 x tolerance ({})", d, c.tol));
